@@ -348,7 +348,7 @@ func (g *gen) field(fieldName string, fieldType types.Type) (string, error) {
 		ref := typ.Elem()
 		if named, ok := ref.(*types.Named); ok {
 			if hasHashMethod(named) {
-				return fmt.Sprintf("%s.Hash()", wrap(fieldName)), nil
+				return fmt.Sprintf("uint64(%s.Hash())", wrap(fieldName)), nil
 			}
 		}
 		return fmt.Sprintf("%s(%s)", g.GetFuncName(fieldType), fieldName), nil
@@ -361,7 +361,7 @@ func (g *gen) field(fieldName string, fieldType types.Type) (string, error) {
 	case *types.Struct:
 		if named, isNamed := fieldType.(*types.Named); isNamed {
 			if hasHashMethod(named) {
-				return fmt.Sprintf("%s.Hash()", wrap(fieldName)), nil
+				return fmt.Sprintf("uint64(%s.Hash())", wrap(fieldName)), nil
 			}
 		}
 		return fmt.Sprintf("%s(%s)", g.GetFuncName(fieldType), fieldName), nil
